@@ -514,6 +514,11 @@ def _r11(ctx, pkg, cname, cfn):
                     dst, how, v = o, f.value[2], f.value[3][-1]
             elif f.kind == "attrstore" and f.target in TABLES and f.op in ("=", "Add"):
                 dst, how, v = f.target, "extend", f.value
+            elif f.kind in ("append", "mutate") and f.op in ("append", "extend", "insert") and f.value is not None and fl.assigns.get(f.target):
+                # a local that IS a table (`table = cls._known_elements`, also a helper's list parameter after the helper was put back)
+                o = simp(fl.assigns[f.target][0][0])
+                if len(fl.assigns[f.target]) == 1 and o[0] == "attr" and o[2] in TABLES:
+                    dst, how, v = o[2], f.op, (f.extra.get("args") or (f.value,))[-1]
             if dst is None or v is None:
                 continue
             v = simp(v)
